@@ -137,10 +137,36 @@ func (s *mSchema) dir(name string) *mDir {
 
 var builtinScalars = map[string]bool{"Int": true, "Float": true, "String": true, "Boolean": true, "ID": true}
 
+// referenced tells whether a built-in scalar is part of the schema: a
+// built-in scalar no field, argument or input field refers to is not
+// (GraphQL specification, section 3.5 "Scalars"); String and Boolean always
+// are, through the introspection types.
+func (s *mSchema) referenced(scalar string) bool {
+	if scalar == "String" || scalar == "Boolean" {
+		return true
+	}
+	for _, t := range s.Types {
+		for _, f := range t.Fields {
+			if namedOf(f.Type) == scalar {
+				return true
+			}
+			for _, a := range f.Args {
+				if namedOf(a.Type) == scalar {
+					return true
+				}
+			}
+		}
+	}
+	return false
+}
+
 // typeKind is "" for a name the schema does not define.
 func (s *mSchema) typeKind(name string) string {
 	if builtinScalars[name] {
-		return "SCALAR"
+		if s.referenced(name) {
+			return "SCALAR"
+		}
+		return ""
 	}
 	if t := s.typ(name); t != nil {
 		return t.Kind
@@ -292,6 +318,17 @@ func buildSchema(m *mSchema) (*builtSchema, error) {
 		return nil, fmt.Errorf("schema %s: %v", m.Name, err)
 	}
 	b.schema = s
+	// the model's idea of which names the schema defines must agree with the library's
+	for _, n := range []string{"Int", "Float", "String", "Boolean", "ID", "Nope"} {
+		if (s.Type(n) != nil) != (m.typeKind(n) != "") {
+			return nil, fmt.Errorf("schema %s: model and library disagree on whether type %s is defined", m.Name, n)
+		}
+	}
+	for _, t := range m.Types {
+		if s.Type(t.Name) != b.named[t.Name] {
+			return nil, fmt.Errorf("schema %s: type %s is not the object the schema was built from", m.Name, t.Name)
+		}
+	}
 	return b, nil
 }
 
